@@ -327,8 +327,6 @@ class LRI(dict):
         with self._lock:
             if self is other:
                 return True
-            if len(other) != len(self):
-                return False
             # NB: dict.__eq__ returns NotImplemented for non-dicts,
             # letting *other* decide. Calling ``other == self`` here
             # would re-enter this method forever for plain dicts, as
